@@ -116,7 +116,8 @@ def run(ctx):
     ctx.trusted += ['Coq 8.16.1 kernel (coqc); vm_compute for the finite table obligations; no native_compute',
                     'translator tools/translate/tables.py (AST literal evaluator, fail-closed; its output is compared with the imported tables on every run)',
                     'Base/Fmt.v (model of Python %-formatting for d, s, e, f on exact doubles) and Base/FixedFormat.v (model of fixed_format_file): hand-written, run against the implementation on the lattice on every run',
-                    'Base/PyNum.v float()/int() grammar (validated in C16)', 'extraction: ExtrOcamlBasic + ExtrOcamlString, OCaml 4.13.1, ocaml/main.ml',
+                    'Base/PyNum.v float()/int() grammar (validated in C16; here by the parser correspondence); float() is modelled up to the decimal the text denotes: the final decimal->double rounding (strtod) is CPython, not modelled',
+                    'stdlib Decimal*/DecimalString (the model prints integers with NilZero.string_of_uint (N.to_uint n)); QArith for the accuracy statements', 'extraction: ExtrOcamlBasic + ExtrOcamlString, OCaml 4.13.1, ocaml/main.ml',
                     "CPython's float formatting/strtod as the ground truth of the correspondence"]
     ctx.assumptions += ['values are str / int / finite float / None (inf, nan, %g formats and %s of a float are outside the model)']
     ctx.stage()
@@ -157,6 +158,11 @@ def replay(ctx, data):
             print('replay: line %r -> %r' % (line, got))
             for j, s2 in enumerate(specs):
                 if not orc.check_field(orc.expected_readback(s2, vals[j], None), got[j], s2): return True
+            i = inp.get('field')
+            if isinstance(i, int) and i < len(specs) and i < len(vals) and vals[i] is not None and orc.parse_spec(specs[i])[2] in 'ef' \
+                    and all(orc.parse_spec(s2)[0] > 0 for s2 in specs):
+                pos = sum(abs(orc.parse_spec(s2)[0]) for s2 in specs[:i])
+                if not orc.printed_digits_ok(line[pos: pos + abs(orc.parse_spec(specs[i])[0])], vals[i], got[i]): return True
             return False
     finally:
         shutil.rmtree(tmpdir, ignore_errors=True)
